@@ -275,8 +275,12 @@ func (w *c05World) ask(t *testing.T, q c05Query, id int, beh int) c05Event {
 		Q: strings.ToLower(q.name), Scoped: strings.HasPrefix(strings.ToLower(q.name), "s."),
 		ExpRc: c05ExpRc(strings.ToLower(q.name)), Fwd: "none", Content: "none",
 		EchoAddr: "none", OptAddr: "none", Geo: map[string]string{}}
+	if q.opt == "absent" && id%3 == 0 {
+		// EDNS with the DO bit but without a client-subnet option: still "no ECS option in the query"
+		req.SetEdns0(1232, true)
+	}
 	if q.opt != "absent" {
-		req.SetEdns0(1232, false)
+		req.SetEdns0(1232, id%2 == 0)
 		o := req.IsEdns0()
 		fam := uint16(1)
 		if q.sub.Addr().Is6() {
